@@ -377,6 +377,8 @@ def _semantics(rec, name):
         return lambda x: x.k != 0
     if name == "key":
         return lambda x: x.k
+    if name == "key2":
+        return lambda x: x.k // 2
     return lambda *a: Node(name, a)
 
 
